@@ -106,7 +106,11 @@ Inductive c26_case :=
 | Ctx26 (ctx : bytes)
 (* the real link routine in the given role against a counterpart that
    authenticates as the signalled peer (same = true) or as another identity *)
-| Link26 (offerer same : bool) (obs_established : bool).
+| Link26 (offerer same : bool) (obs_established : bool)
+(* the real session tracker in the given role fed with the events by a fake
+   signaling session; observed: did the local peer transmit an SDP answer / an
+   SDP offer / a request for an offer *)
+| Neg26 (offerer : bool) (evs : list nev) (tx_answer tx_offer tx_request : bool).
 
 Definition c26_agree (c : c26_case) : bool :=
   match c with
@@ -132,6 +136,10 @@ Definition c26_agree (c : c26_case) : bool :=
   | Role26 a b oab oba =>
       Bool.eqb (is_offerer a b) oab && Bool.eqb (is_offerer b a) oba
   | Ctx26 ctx => bytes_eqb ctx webrtc_ctx
+  | Neg26 offerer evs txa txo txr =>
+      let outs := nrun offerer false evs in
+      Bool.eqb (existsb (fun x => match x with TxAnswer => true | _ => false end) outs) txa
+      && implb txo offerer && implb txr (negb offerer)
   | Link26 offerer same est =>
       Bool.eqb (link_accepted offerer [1] (if same then [1] else [2])) est
   end.
